@@ -249,12 +249,12 @@ func oracleCache(opsPath, outPath string) {
 // is handed out for a newer snapshot").
 
 type ilScenario struct {
-	maxsize  int
-	typ      string
-	samekey  bool
-	twodeps  bool
-	round2   string // "same", "other", "pa"
-	flusher  bool
+	maxsize int
+	typ     string
+	samekey bool
+	twodeps bool
+	round2  string // "same", "other", "pa"
+	flusher bool
 }
 
 func tick() {
